@@ -137,6 +137,19 @@ class Model:
             s._reassigned[key] = n > 1
         return s._reassigned[key]
 
+    def tuple_fields(s, g):
+        """field names, in order, of a typing.NamedTuple subclass / collections.namedtuple of the repository (None otherwise)"""
+        lk = s.lookup(g) if g and g[0] == 'g' else None
+        if lk and lk[0] == 'class' and any((isinstance(b, ast.Name) and b.id == 'NamedTuple') or (isinstance(b, ast.Attribute) and b.attr == 'NamedTuple') for b in lk[1].bases):
+            return [n.target.id for n in lk[1].body if isinstance(n, ast.AnnAssign) and isinstance(n.target, ast.Name)]
+        if lk and lk[0] == 'const' and isinstance(lk[1], ast.Call) and ast.unparse(lk[1].func).endswith('namedtuple') and len(lk[1].args) == 2:
+            try:
+                spec = ast.literal_eval(lk[1].args[1])
+                return spec.replace(',', ' ').split() if isinstance(spec, str) else list(spec)
+            except (ValueError, SyntaxError):
+                return None
+        return None
+
     def attr_stored(s, name):
         """is `<anything>.name` ever the target of an assignment in the package?"""
         if not hasattr(s, '_stored_attrs'):
@@ -359,6 +372,13 @@ class Sym:
                             return s.term(body[0].value, {r[2].args.args[0].arg: ('self',)}, r[0], r[1])
                         finally:
                             s._prop_depth -= 1
+            if base[0] == 'call' and base[1][0] == 'g':
+                flds = s.model.tuple_fields(base[1])
+                if flds and n.attr in flds and not any(a_[0] == 'star' for a_ in base[2]) and not any(k_ == '**' for k_, _ in base[3]):
+                    byname = dict(zip(flds, base[2]))
+                    byname.update({k_: v_ for k_, v_ in base[3] if k_ in flds})
+                    if n.attr in byname:
+                        return byname[n.attr]                    # NT(a=x, b=y).a is x
             if base == ('self',) and cls is not None:
                 # a class-level table of literals read through self (never assigned on instances)
                 dm, dc = getattr(s, '_dyn', (mod, cls))
@@ -432,6 +452,17 @@ class Sym:
                     kws.extend((kk[1], vv) for kk, vv in kv[1])            # f(**{"a": x}) == f(a=x)
                 else:
                     kws.append((k.arg if k.arg is not None else '**', kv))
+            if f[0] == 'call' and f[1][0] in ('ext', 'g', 'b') and len(args) == 1 and not kws and f[2] and f[2][0][0] == 'c' and isinstance(f[2][0][1], str):
+                opn = term_name(f[1]).split('.')[-1]
+                if opn == 'methodcaller' and f[2][0][1].isidentifier():
+                    return ('call', ('attr', args[0], f[2][0][1]), tuple(f[2][1:]), tuple(f[3]))           # methodcaller("m", a)(o) is o.m(a)
+                if opn == 'attrgetter' and len(f[2]) == 1 and not f[3] and all(p_.isidentifier() for p_ in f[2][0][1].split('.')):
+                    r_ = args[0]
+                    for p_ in f[2][0][1].split('.'):
+                        r_ = ('attr', r_, p_)
+                    return r_                                                                              # attrgetter("a.b")(o) is o.a.b
+            if f[0] == 'call' and f[1][0] in ('ext', 'g', 'b') and term_name(f[1]).split('.')[-1] == 'itemgetter' and len(f[2]) == 1 and not f[3] and len(args) == 1 and not kws:
+                return ('sub', args[0], f[2][0])                                                           # itemgetter(k)(o) is o[k]
             if f[0] == 'call' and term_name(f[1]).split('.')[-1] == 'partial' and f[1][0] in ('ext', 'g', 'b') and f[2] and not any(a_[0] == 'star' for a_ in f[2]) and not any(k_ == '**' for k_, _ in f[3]):
                 # functools.partial(g, *a, **k)(*b, **k2) is g(*a, *b, **{**k, **k2})
                 merged = dict(f[3])
@@ -444,6 +475,13 @@ class Sym:
                     return (f[1], lit[1])                           # tuple(<f(x) for x in literal>) is the literal tuple
             if f[0] == 'b' and f[1] in ('tuple', 'list') and len(args) == 1 and not kws and args[0][0] in ('tuple', 'list') and not any(x[0] == 'star' for x in args[0][1]):
                 return (f[1], args[0][1])
+            if f[0] == 'attr' and f[2] == '_asdict' and not args and not kws and f[1][0] == 'call' and f[1][1][0] == 'g':
+                flds = s.model.tuple_fields(f[1][1])
+                if flds and not any(a_[0] == 'star' for a_ in f[1][2]) and not any(k_ == '**' for k_, _ in f[1][3]):
+                    byname = dict(zip(flds, f[1][2]))
+                    byname.update({k_: v_ for k_, v_ in f[1][3] if k_ in flds})
+                    if len(byname) == len(flds):
+                        return ('dict', tuple((('c', k_), byname[k_]) for k_ in flds))       # NT(...)._asdict() is the dict of its fields
             if f == ('b', 'format') and len(args) == 2 and not kws and args[1][0] == 'c' and isinstance(args[1][1], str):
                 return ('call', ('attr', ('c', '{:%s}' % args[1][1]), 'format'), (args[0],), ())      # format(x, ".3f") == "{:.3f}".format(x)
             if f == ('b', 'getattr') and len(args) == 2 and not kws and args[1][0] == 'c' and isinstance(args[1][1], str) and args[1][1].isidentifier():
@@ -876,6 +914,7 @@ class Sym:
             return None
         inner = Leaf()
         inner.env = env
+        inner.conds = list(leaf.conds)          # what the caller's path already decided stays decided inside the helper (no contradictory paths)
         save = (s._mod, s._cls)
         s._mod, s._cls = mod2, (cls2 if bound else (cls2 if cls2 is not None else None))
         s._inline_depth += 1
@@ -888,9 +927,9 @@ class Sym:
         base = len(leaf.conds)
         for r in res:
             l2 = leaf.clone()
-            l2.conds += r.conds
+            l2.conds += r.conds[base:]
             for e in r.effects:
-                l2.effects.append(e[:4] + (e[4] + base,))
+                l2.effects.append(e[:4] + (e[4],))
             l2.notes += r.notes
             if r.outcome == 'raise':
                 l2.outcome, l2.value, l2.node = 'raise', r.value, r.node
@@ -1198,15 +1237,22 @@ class Sym:
             orelse = [node]
         return orelse[0] if orelse else None
 
-    def _assigned_names(s, stmts):
+    def _assigned_names(s, stmts, env=None):
+        """names (re)bound in the statements, and local containers mutated in place; a local that merely ALIASES something else
+        (detections = self._detections; detections.append(x)) is not rebound by mutating what it refers to"""
         out = set()
+        mutated = set()
         for st in stmts:
             for n in ast.walk(st):
                 if isinstance(n, ast.Name) and isinstance(n.ctx, ast.Store):
                     out.add(n.id)
                 elif isinstance(n, ast.Call) and isinstance(n.func, ast.Attribute) and isinstance(n.func.value, ast.Name) \
                         and n.func.attr in ('append', 'extend', 'insert', 'pop', 'remove', 'clear', 'update', 'add'):
-                    out.add(n.func.value.id)
+                    mutated.add(n.func.value.id)
+        for nm in mutated - out:
+            v = env.get(nm) if env is not None else None
+            if v is None or v[0] in ('list', 'dict', 'tuple', 'upd', 'listcomp', 'setcomp', 'unk', 'loopvar'):
+                out.add(nm)
         return out
 
     def _fusable(s, st, leaf):
@@ -1275,7 +1321,7 @@ class Sym:
         skip = leaf.clone()
         skip.effects.append(('loop-skip', it, None, st, len(skip.conds)))
         one = leaf.clone()
-        for nm in s._assigned_names(st.body):
+        for nm in s._assigned_names(st.body, leaf.env):
             if nm in one.env:
                 one.env[nm] = ('loopvar', nm, st.lineno, one.env[nm])
             else:
@@ -1288,8 +1334,8 @@ class Sym:
             if r.outcome in ('break', 'continue'):
                 r.outcome = None
             if r.outcome is None:
-                r.notes.append(('loop-end-env', st.lineno, {nm: r.env.get(nm) for nm in s._assigned_names(st.body)}))
-                for nm in s._assigned_names(st.body):
+                r.notes.append(('loop-end-env', st.lineno, {nm: r.env.get(nm) for nm in s._assigned_names(st.body, leaf.env)}))
+                for nm in s._assigned_names(st.body, leaf.env):
                     r.env[nm] = ('loopvar', nm, st.lineno)
             out.append(r)
         res = [skip] + out
@@ -1298,10 +1344,18 @@ class Sym:
         return res
 
     def while_loop(s, st, leaf):
+        if not (isinstance(st.test, ast.Constant)) and not st.orelse and any(isinstance(x, ast.NamedExpr) for x in ast.walk(st.test)):
+            # `while C: BODY` with a test that binds a name (:=) is `while True: if not C: break; BODY`: the test is evaluated
+            # (with its effects) at the start of every iteration, and leaving the loop is a break
+            guard = ast.If(test=ast.UnaryOp(op=ast.Not(), operand=st.test), body=[ast.Break()], orelse=[])
+            new_loop = ast.While(test=ast.Constant(value=True), body=[guard] + list(st.body), orelse=[])
+            for x in (guard, guard.test, guard.body[0], new_loop, new_loop.test):
+                ast.copy_location(x, st)
+            return s.while_loop(new_loop, leaf)
         const_true = isinstance(st.test, ast.Constant) and bool(st.test.value)
         res = []
         one = leaf.clone()
-        assigned = s._assigned_names(st.body)
+        assigned = s._assigned_names(st.body, leaf.env)
         for nm in assigned:
             if nm in one.env:
                 one.env[nm] = ('loopvar', nm, st.lineno, one.env[nm])
